@@ -645,7 +645,7 @@ def shard(args):
             acc.case(len(prefix) > 0 or len(scn["script"]) > 2, key=(si, prefix))
             acc.transitions += len(ch.points)
             acc.outcome(str(obs)[:200])
-            if len(acc.samples) < 3 and (acc.n + seed) % 4999 == 0:
+            if len(acc.samples) < 3 and (not acc.samples or (acc.n + seed) % 499 == 0):
                 acc.samples.append({"scenario": shown, "choices": list(prefix), "observed": [str(o) for o in obs]})
             for sig, msg in fails:
                 labels = [p[0][p[2]] for p in ch.points]
